@@ -151,6 +151,22 @@ TupVar ==
        \cup {FunDef("f", TSig(T, sp), <<Assign("u", e0), If(Cc, <<Assign("u", T0)>>, <<>>), Ret(Sub(U, CI(k - 1)))>>, T.elts[k]) : k \in 1..Len(T.elts)}
      : e0 \in TupInit(T)} : T \in TupTypes} : sp \in BOOLEAN}
 
+\* names that collide with the synthesiser's own naming schemes (ancillas anc_<n>, the shared constant qubits TRUE / FALSE):
+\* arguments and locals so called, in expressions that need ancillas and constants
+NmS == {"anc_0", "anc_1", "TRUE", "FALSE"}
+NmForms(x, y, z) == {Cmp("NotEq", BoolOpN("And", <<x, y>>), y), BoolOpN("Or", <<BoolOpN("And", <<x, y>>), BoolOpN("And", <<Un("Not", x), z>>)>>),
+                     Bin("BitXor", BoolOpN("And", <<x, y>>), BoolOpN("And", <<y, z>>)), IfE(x, y, Un("Not", z)),
+                     BoolOpN("And", <<BoolOpN("Or", <<x, y>>), BoolOpN("Or", <<y, z>>), Un("Not", BoolOpN("And", <<x, z>>))>>)}
+Names ==
+  UNION {LET n1 == nn[1]  n2 == nn[2] IN
+         {FunDef("f", <<Arg(n1, TBool), Arg(n2, TBool), Arg("c", TBool)>>, <<Ret(e)>>, TBool) : e \in NmForms(Name(n1), Name(n2), Cc)}
+         \cup {FunDef("f", <<Arg(n1, TBool), Arg(n2, TBool), Arg("c", TBool)>>, <<Ret(Tup(<<e, e2>>))>>, TTup(<<TBool, TBool>>)) :
+                 e \in NmForms(Name(n1), Name(n2), Cc), e2 \in {CB(TRUE), CB(FALSE), Name(n2)}}
+         \cup {FunDef("f", <<Arg("a", TBool), Arg(n2, TBool), Arg("c", TBool)>>, <<Assign(n1, e0), If(Cc, <<Assign(n1, e)>>, <<>>), Ret(BoolOpN("And", <<Name(n1), Name(n2)>>))>>, TBool) :
+                 e0 \in {CB(TRUE), CB(FALSE), Name(n2)}, e \in NmForms(Name("a"), Name(n2), Cc)}
+         \cup {FunDef("f", <<Arg(n1, I2), Arg(n2, TBool)>>, <<Ret(IfE(Name(n2), Bin(op, Name(n1), CI(1)), Name(n1)))>>, I2) : op \in {"Add", "Mult"}}
+        : nn \in {x \in (NmS \cup {"b"}) \X (NmS \cup {"b"}) : x[1] # x[2]}}
+
 Pool == CASE Family = "loopif" -> LoopIf [] Family = "elif" -> Elif [] Family = "nested" -> Nested
           [] Family = "listidx" -> ListIdx [] Family = "swapuse" -> SwapUse [] Family = "ifaug" -> IfAug
           [] Family = "iftest" -> IfTest
@@ -158,6 +174,7 @@ Pool == CASE Family = "loopif" -> LoopIf [] Family = "elif" -> Elif [] Family = 
           [] Family = "fixgrid" -> FixGrid
           [] Family = "chargrid" -> CharGrid
           [] Family = "tupvar" -> TupVar
+          [] Family = "names" -> Names
 Init == p \in Pool
 Next == FALSE /\ p' = p
 Spec == Init /\ [][Next]_p
